@@ -12,11 +12,11 @@ NOTE_LOOP = "Trusted: rustc's MIR dump, the Python models of core/futures adapte
 claimed = {
  'C01': (SYS + "; oracle: handlers never overlap, at-most-once, completed-before order respected across waiting/forcing paths and clients. Plus the " + LOOP + " (handler invocations sequential).", NOTE_SYS),
  'C02': (SYS + "; oracle: Ok results carry the response of the caller's own message handled exactly once; at quiescence no operation is unresolved. Plus loop level: notifier dropped or fired and mailbox dropped on every end.", NOTE_SYS),
- 'C03': (LOOP + "; the callback protocol is asserted on every path.", NOTE_LOOP),
+ 'C03': (LOOP + "; the callback protocol is asserted on every path. Plus the " + SYS + "; oracle: per actor the callbacks follow the lifecycle automaton (started first and complete, no overlap, nothing after a failed started, stopped last before an Ok end, nothing after the end) on every explored schedule of every program.", NOTE_SYS),
  'C04': (SYS + "; oracle: stop barrier over begin/return stamps of operations. Plus " + LOOP + " (Stop is a barrier, notifier fires after stopped() and only on graceful ends).", NOTE_SYS),
  'C05': (SYS + "; ghost set of live strong handles; weak upgrades, premature stops and drain-then-stop after the last drop are asserted.", NOTE_SYS),
- 'C07': (LOOP + "; strategy dispatch through the real refresh bodies, callback order, failing started during restart. Plus " + SYS + " with timers registered in started() on a virtual clock: ticks of a previous incarnation's timers after a restart are violations.", NOTE_SYS),
- 'C06': (SYS + "; faults: the actor task is cancelled at any scheduler step, a handler panics (unwinding along the MIR cleanup edges), started fails; afterwards every pending and later operation must resolve with an error, nothing is handled, timers stop. Plus loop level: on every failing end the notifier is dropped un-notified and mailbox and context are dropped.", NOTE_SYS + " Children and the service registry are not part of the C06 programs yet."),
+ 'C07': (LOOP + "; strategy dispatch through the real refresh bodies, callback order, failing started during restart. Plus " + SYS + " with timers registered in started() on a virtual clock: ticks of a previous incarnation's timers after a restart are violations; programs strategy_*: every builder chain x spawn/spawn_owning followed by call, restart, call, stop - the strategy that serves the restart, as bound by the generic arguments along the real call path (tracked by the engine, defaults read from the type declarations), must be the one the chain names (confirmed natively by hv-entry strategies).", NOTE_SYS),
+ 'C06': (SYS + "; faults: the actor task is cancelled at any scheduler step, a handler panics (unwinding along the MIR cleanup edges), started fails; afterwards every pending and later operation must resolve with an error, nothing is handled, timers stop. Plus loop level: on every failing end the notifier is dropped un-notified and mailbox and context are dropped.", NOTE_SYS + " Children (released and stopping gracefully when the parent is killed or panics) and the registry (a killed service is treated as not running) are covered by the children_* / registry_service_killed programs."),
  'C10': (SYS + "; timers registered by started() run as real MIR (Context::interval/interval_with/delayed_send/delayed_exec, spawn_task, TokioSpawner) against a virtual clock that the scheduler may advance at any step; periods, exactly-once, no delivery after termination, no leaked timer task.", NOTE_SYS + " tokio::spawn / tokio::time::sleep are modelled (task table, virtual clock); durations are small concrete tick counts."),
  'C11': (LOOP + "; timer and handler become ready at arbitrary polls, timeout/fail_on_timeout symbolic.", NOTE_LOOP),
  'C12': (SYS + "; bounded(n) with n symbolic in 0..3: z3 is asked on every schedule whether #(sends returned Ok) - #(taken) can exceed n.", NOTE_SYS),
